@@ -188,4 +188,22 @@ def rShareRecord (offset total : Nat) : Nat := total * offset + rRecordAdd
 /-- PRSS record ids reserved for DZKP batch `b`: `[b·K, (b+1)·K)`. -/
 def dzkpRange (K b : Nat) : Nat × Nat := (b * K, (b + 1) * K)
 
+/-! ## record ids of `aggregate_values` across chunks -/
+
+/-- number of rows entering depth `d` of the pairwise reduction of `n` rows: `n ↦ ⌈n/2⌉` each level. -/
+def rowsAt (n : Nat) : Nat → Nat
+  | 0 => n
+  | d + 1 => (rowsAt n d + 1) / 2
+
+/-- record ids consumed at depth `d` by one call with `n` rows: `⌊rows/2⌋` (the odd row passes through). -/
+def halves (n d : Nat) : Nat := rowsAt n d / 2
+
+/-- `record_ids[d]` after the calls in `calls` (each adds `rows / 2`). -/
+def baseAfter (calls : List Nat) (d : Nat) : Nat := (calls.map (halves · d)).foldl (· + ·) 0
+
+/-- number of loop iterations (`while num_rows > 1`) for `n` rows, fuel-bounded. -/
+def aggDepth : Nat → Nat → Nat
+  | 0, _ => 0
+  | fuel + 1, n => if n > 1 then 1 + aggDepth fuel ((n + 1) / 2) else 0
+
 end IpaVerif.Prss
